@@ -37,6 +37,11 @@ pub fn all_verdicts() -> Vec<(String, bool, bool, String)> {
         v.push((ty.to_string(), got, exp, detail));
     }
     for (what, got, exp) in constructor_verdicts() {
+        // the statement names `new` and `new_ref`; conversions (From, FromIterator) could check at
+        // run time and are listed for information only
+        if what.contains(": From") {
+            continue;
+        }
         let detail = format!("`{}` is {} by the compiler, expected it to be {}: the constructors and conversions that skip the duplicate check must only take inputs that own their locks", what, if got { "accepted" } else { "rejected" }, if exp { "accepted" } else { "rejected" });
         v.push((what, got, exp, detail));
     }
